@@ -84,7 +84,8 @@ def fault_list(case):
                     (i, {"kind": "open", "errno": errno.EACCES}), (i, {"kind": "open", "errno": errno.EIO}), (i, {"kind": "arcname_rejected"}),
                     (i, {"kind": "lstat", "errno": 0, "exc": "ValueError"}), (i, {"kind": "open", "errno": 0, "exc": "ValueError"}),
                     # a source that is no regular file, directory or link (a FIFO), and a name that cannot be stored
-                    (i, {"kind": "special_file"}), (i, {"kind": "arcname_rejected", "name": "bad${SURR}name"})]
+                    (i, {"kind": "special_file"}), (i, {"kind": "arcname_rejected", "name": "bad${SURR}name"}),
+                    (i, {"kind": "arcname_rejected", "name": "bad${SURR}path", "as_path": True})]
             for k in sorted({0, 1, B - 1, B, B + 1, n}):
                 if 0 <= k <= n:
                     out.append((i, {"kind": "read", "after": k}))
@@ -357,7 +358,12 @@ def _do_call(z, c, i, src, inject, failed_paths):
             elif inject["kind"] == "arcname_rejected":
                 name = inject.get("name", "c:c:/still/absolute").replace("${SURR}", "\udc80")
                 failed_paths.pop()
-        z.write(FaultPath(p), name)
+        if inject is not None and inject.get("as_path"):
+            import pathlib
+
+            z.write(FaultPath(p), pathlib.PurePosixPath(name))  # the archive name given as a path object
+        else:
+            z.write(FaultPath(p), name)
         return [(name, data, "file")], []
     if c["op"] == "writeall":
         root = os.path.join(src, "t%d" % i)
